@@ -1,7 +1,7 @@
-(* C07 -- GeneratorSpherical: r in [r_min, r_max], phi in [0, 2 pi), and theta in [0, pi]
-   under the hypothesis that the argument of acos does not exceed 1.  Finding F8: without that
-   hypothesis the argument is sqrt(c/(a+b+c)) + 1e-6, larger than 1 when a, b are ~0, and acos
-   returns NaN.  The formulas are the regenerated ones (gen/Gen_C07.v, modules GSph_xxx). *)
+(* C07 -- GeneratorSpherical: r in [r_min, r_max], phi in [0, 2 pi), theta = acos(clamp(z, -1, 1))
+   defined and in [0, pi] for every draw (denom = max(a + b + c, tiny) > 0 since commit f2992d2).  (Before commit 75057c3 the argument
+   of acos was z itself, which exceeds 1 when a, b are ~0: finding F8, now fixed.)
+   The formulas are the regenerated ones (gen/Gen_C07.v, modules GSph_xxx). *)
 From Coq Require Import Reals List String Bool Arith Lia Lra Field.
 From ND.lib Require Import Expr Tac.
 From ND.model Require Import AtomicGen.
@@ -12,12 +12,18 @@ Open Scope R_scope.
 Module S2 := GSph_equally_spaced_noisy.
 Module S1 := GSph_equally_radius_noisy.
 
-(* structure of the returned triple: (r, acos(z), -atan2(y, x) + pi), for both methods *)
+(* structure of the returned triple: (r, acos(clamp(z, -1, 1)), -atan2(y, x) + pi), for both methods *)
 Lemma sph_structure :
-  map t_wrap (e_tensors S2.entry) = [WNone; WAcos; WPhi S2.aux_2_0 S2.aux_2_1]
-  /\ map t_wrap (e_tensors S1.entry) = [WNone; WAcos; WPhi S1.aux_2_0 S1.aux_2_1]
+  map t_wrap (e_tensors S2.entry) = [WNone; WAcosClamp (ECst (-1)) (ECst 1); WPhi S2.aux_2_0 S2.aux_2_1]
+  /\ map t_wrap (e_tensors S1.entry) = [WNone; WAcosClamp (ECst (-1)) (ECst 1); WPhi S1.aux_2_0 S1.aux_2_1]
   /\ S1.term_1 = S2.term_1 /\ S1.term_2 = S2.term_2 /\ S1.aux_2_0 = S2.aux_2_0 /\ S1.aux_2_1 = S2.aux_2_1.
 Proof. repeat split; reflexivity. Qed.
+
+Lemma clamp_bounds x lo hi : lo <= hi -> lo <= clamp x lo hi <= hi.
+Proof. intros H. unfold clamp, Rmax, Rmin. destruct (Rle_dec x lo); destruct (Rle_dec _ hi); lra. Qed.
+
+Lemma clamp_id x lo hi : lo <= x <= hi -> clamp x lo hi = x.
+Proof. intros H. unfold clamp, Rmax, Rmin. destruct (Rle_dec x lo); destruct (Rle_dec _ hi); lra. Qed.
 
 Section Sph.
   Variables (venv penv : nat -> R) (fenv : nat -> list nat -> list R -> R).
@@ -51,27 +57,57 @@ Section Sph.
   Qed.
 End Sph.
 
+(* the guarded denominator is positive: denom = Rmax (a + b + c) tiny with tiny > 0 *)
+Lemma denom_def :
+  e_defs S2.entry = [(v_denom, S2.def_0_arg, S2.def_0_lo)] /\ e_defs S1.entry = [(v_denom, S1.def_0_arg, S1.def_0_lo)]
+  /\ S2.def_0_lo = EPar p_tiny /\ S1.def_0_arg = S2.def_0_arg /\ S1.def_0_lo = S2.def_0_lo.
+Proof. repeat split; reflexivity. Qed.
+
 Section Angles.
   Variables (venv penv : nat -> R) (fenv : nat -> list nat -> list R -> R).
   Hypothesis Hu0 : 0 <= venv v_u0 < 1.
   Hypothesis Hu1 : 0 <= venv v_u1 < 1.
   Hypothesis Hu2 : 0 <= venv v_u2 < 1.
   Hypothesis Hs0 : venv v_s0 = 0 \/ venv v_s0 = 1.       (* torch.randint(0, 2) *)
-  Hypothesis Hpos : 0 < venv v_u0 + venv v_u1 + venv v_u2.
+  Hypothesis Htiny : 0 < penv p_tiny.                    (* torch.finfo(dtype).tiny *)
+  (* denom = torch.clamp(a + b + c, min=tiny) *)
+  Hypothesis Hden : venv v_denom = Rmax (eval venv penv fenv S2.def_0_arg) (eval venv penv fenv S2.def_0_lo).
 
-  (* theta = acos(z): defined and in [0, pi] PROVIDED the argument stays within [-1, 1] *)
-  Lemma sph_theta_partial :
-    sqrt (venv v_u2 / (venv v_u0 + venv v_u1 + venv v_u2)) + 1 / 1000000 <= 1 ->
-    defined venv penv fenv S2.term_1
-    /\ -1 <= eval venv penv fenv S2.term_1 <= 1
-    /\ 0 <= acos (eval venv penv fenv S2.term_1) <= PI.
+  Lemma denom_pos : 0 < venv v_denom.
   Proof.
-    intros Hle. cbn [defined eval S2.term_1]. cbv [v_u0 v_u1 v_u2 v_s0] in *.
-    set (q := venv 3%nat / (venv 1%nat + venv 2%nat + venv 3%nat)) in *.
-    assert (Hq : 0 <= q) by (unfold q; apply Rmult_le_pos; [lra | left; apply Rinv_0_lt_compat; lra]).
-    pose proof (sqrt_positivity q Hq) as Hsq.
-    split; [repeat split; auto; lra|]. split; [|apply acos_bound].
-    destruct Hs0 as [-> | ->]; lra.
+    rewrite Hden. cbn [eval S2.def_0_lo].
+    pose proof (Rmax_r (eval venv penv fenv S2.def_0_arg) (penv p_tiny)). lra.
+  Qed.
+
+  (* when a + b + c >= tiny (always, unless all three draws are 0) the guard is the identity *)
+  Lemma denom_generic : penv p_tiny <= venv v_u0 + venv v_u1 + venv v_u2 ->
+    venv v_denom = venv v_u0 + venv v_u1 + venv v_u2.
+  Proof. intros H. rewrite Hden. cbn [eval S2.def_0_arg S2.def_0_lo]. now apply Rmax_left. Qed.
+
+  (* theta = acos(clamp(z, -1, 1)): z is defined, the argument of acos lies in [-1, 1] and
+     theta in [0, pi], for EVERY draw a, b, c in [0,1) and either sign *)
+  Lemma sph_theta :
+    defined venv penv fenv S2.term_1
+    /\ -1 <= clamp (eval venv penv fenv S2.term_1) (-1) 1 <= 1
+    /\ 0 <= acos (clamp (eval venv penv fenv S2.term_1) (-1) 1) <= PI.
+  Proof.
+    pose proof denom_pos as Hd.
+    split; [|split; [|apply acos_bound]].
+    - cbn [defined eval S2.term_1]. cbv [v_u0 v_u1 v_u2 v_s0 v_denom] in *.
+      assert (Hq : 0 <= venv 3%nat / venv 9%nat) by (apply Rmult_le_pos; [lra | left; apply Rinv_0_lt_compat; lra]).
+      repeat split; auto; lra.
+    - apply clamp_bounds. lra.
+  Qed.
+
+  (* where the clamp is the identity (the generic case), theta = acos z *)
+  Lemma sph_theta_unclamped :
+    sqrt (venv v_u2 / venv v_denom) + 1 / 1000000 <= 1 ->
+    clamp (eval venv penv fenv S2.term_1) (-1) 1 = eval venv penv fenv S2.term_1.
+  Proof.
+    intros Hle. pose proof denom_pos as Hd. cbn [eval S2.term_1]. cbv [v_u0 v_u1 v_u2 v_s0 v_denom] in *.
+    assert (Hq : 0 <= venv 3%nat / venv 9%nat) by (apply Rmult_le_pos; [lra | left; apply Rinv_0_lt_compat; lra]).
+    pose proof (sqrt_positivity _ Hq) as Hsq.
+    apply clamp_id. destruct Hs0 as [-> | ->]; lra.
   Qed.
 
   (* phi = -atan2(y, x) + pi with atan2 in (-pi, pi] *)
@@ -86,15 +122,15 @@ Section Angles.
     pose proof (atan2_range (eval venv penv fenv S2.aux_2_0) (eval venv penv fenv S2.aux_2_1)). lra.
   Qed.
 
-  (* the arguments of atan2 are defined and non-zero (|x|, |y| >= 1e-6) *)
+  (* the arguments of atan2 are defined and non-zero (|x|, |y| >= 1e-6), for every draw *)
   Lemma sph_atan2_args (Hs1 : venv v_s1 = 0 \/ venv v_s1 = 1) :
     defined venv penv fenv S2.aux_2_0 /\ defined venv penv fenv S2.aux_2_1
     /\ eval venv penv fenv S2.aux_2_0 <> 0 /\ eval venv penv fenv S2.aux_2_1 <> 0.
   Proof.
-    cbn [defined eval S2.aux_2_0 S2.aux_2_1]. cbv [v_u0 v_u1 v_u2 v_s0 v_s1] in *.
-    set (D := venv 1%nat + venv 2%nat + venv 3%nat) in *.
-    assert (Hq1 : 0 <= venv 2%nat / D) by (apply Rmult_le_pos; [lra | left; apply Rinv_0_lt_compat; lra]).
-    assert (Hq0 : 0 <= venv 1%nat / D) by (apply Rmult_le_pos; [lra | left; apply Rinv_0_lt_compat; lra]).
+    pose proof denom_pos as Hd.
+    cbn [defined eval S2.aux_2_0 S2.aux_2_1]. cbv [v_u0 v_u1 v_u2 v_s0 v_s1 v_denom] in *.
+    assert (Hq1 : 0 <= venv 2%nat / venv 9%nat) by (apply Rmult_le_pos; [lra | left; apply Rinv_0_lt_compat; lra]).
+    assert (Hq0 : 0 <= venv 1%nat / venv 9%nat) by (apply Rmult_le_pos; [lra | left; apply Rinv_0_lt_compat; lra]).
     pose proof (sqrt_positivity _ Hq1). pose proof (sqrt_positivity _ Hq0).
     repeat split; auto; try lra.
     - destruct Hs1 as [-> | ->]; nra.
@@ -102,7 +138,17 @@ Section Angles.
   Qed.
 End Angles.
 
-(* non-vacuity of sph_theta_partial: a = b = c = 1/2 gives sqrt(1/3) + 1e-6 <= 1 *)
+(* non-vacuity: the hypotheses hold at a = b = c = 0 (denom = tiny) and at a = b = c = 1/2 *)
+Example angles_premises_at_zero :
+  let venv := fun v : nat => if Nat.eqb v v_denom then 1 / 4 else 0 in
+  let penv := fun p : nat => if Nat.eqb p p_tiny then 1 / 4 else 0 in
+  venv v_denom = Rmax (eval venv penv (fun _ _ _ => 0) S2.def_0_arg) (eval venv penv (fun _ _ _ => 0) S2.def_0_lo).
+Proof.
+  cbn [eval S2.def_0_arg S2.def_0_lo Nat.eqb v_denom v_u0 v_u1 v_u2 p_tiny].
+  rewrite Rmax_right; lra.
+Qed.
+
+(* non-vacuity of sph_theta_unclamped: a = b = c = 1/2 gives sqrt(1/3) + 1e-6 <= 1 *)
 Example theta_premise_satisfiable : sqrt ((1 / 2) / (1 / 2 + 1 / 2 + 1 / 2)) + 1 / 1000000 <= 1.
 Proof.
   replace ((1 / 2) / (1 / 2 + 1 / 2 + 1 / 2)) with (1 / 3) by field.
@@ -110,3 +156,7 @@ Proof.
   assert (sqrt (1 / 3) * sqrt (1 / 3) = 1 / 3) by (apply sqrt_sqrt; lra).
   assert (0 <= sqrt (1 / 3)) by (apply sqrt_positivity; lra). nra.
 Qed.
+
+(* the clamp matters: at a = b = 0, c = 1/2, sign +1 the unclamped argument is 1 + 1e-6 *)
+Example clamp_active : clamp (1 + 1 / 1000000) (-1) 1 = 1.
+Proof. unfold clamp, Rmax, Rmin. destruct (Rle_dec (1 + 1 / 1000000) (-1)); destruct (Rle_dec _ 1); lra. Qed.
